@@ -1,5 +1,6 @@
 import SqlProofs.DelimChild.Bodies
 import SqlProofs.DelimChild.Bridge
+import SqlProofs.DelimChild.NW7
 /-!
 # SqlProofs.DelimChild.Main — **the child-level delimiter theorem**
 
@@ -17,7 +18,7 @@ def StepTop (u : Text → Text) (ph ph' : Ph) (p : Pass) : Prop :=
   ∀ fuel L L', p fuel .Statement L = .ok L' → NoAssign L → ListInv u ph L → ListInv u ph' L'
 
 theorem StepTop.of_passInv {ph ph' : Ph} {p : Pass} (h : PassInv u ph ph' p) : StepTop u ph ph' p :=
-  fun fuel L L' hp _ hi => (h fuel .Statement L L' hp (kidsInv_of_not_six rfl) hi).2
+  fun fuel L L' hp _ hi => (h fuel .Statement L L' hp (kidsInv_of_not_six rfl) hi).2.1
 
 /-! ### group_values (top level only) -/
 theorem valuesLoop_bound {ks : List Node} {lo : Nat} :
@@ -71,7 +72,7 @@ theorem stepTop_values {ph : Ph} : StepTop u ph ph (adHocPass Gen.group_values_r
           (fun t tok hq => by cases hq; exact ⟨Nat.le_refl _, hslt⟩) (fun e0 he0 => by cases he0) endIdx rfl
         have : Ops false [] L L' := Ops.of_groupTokens (F := L) (by simp) h h1 h2 rfl
           ⟨startIdx, token, Nat.le_refl _, h1, hs2,
-            nonws_of_trig (fun x hw => trig_values (Or.inl hw)) (tokenNextBy_spec hnb).2.2⟩
+            nonws_of_trig (fun x hw => trig_values (Or.inl hw)) (tokenNextBy_spec hnb).2.2⟩ (by decide)
         exact this.listInv (fun h0 => by cases h0) hi
 
 /-! ### group_assignment does nothing without `:=` -/
@@ -185,10 +186,10 @@ theorem runPasses_chain {fuel : Nat} : ∀ (steps : List (String × Ph × Ph)) (
       have hna1 : NoAssign L1 := noAssign_of_leafRel (passByName_leaves u s.1 fuel .Statement L L1 hp) hna
       exact ih _ _ h2 (fun t ht => hs t (List.mem_cons_of_mem _ ht)) L1 L' h hna1 hi1
 
-/-- **the child-level delimiter theorem**, for any normaliser that separates the block keywords (`DelimU`) -/
-theorem groupWith_delims_childwise (hu : DelimU u) {fuel : Nat} {st : List Tok} {ks' : List Node}
+/-- the invariant of the final tree: frames of all bracket/block nodes, and every group has a non-whitespace child -/
+theorem groupWith_listInv (hu : DelimU u) {fuel : Nat} {st : List Tok} {ks' : List Node}
     (hs : DelimSafeWith u fuel st = true) (h : groupWith u fuel (flatStatement st) = .ok ks') :
-    delimShapeL u ks' = true := by
+    ListInv u .t ks' := by
   unfold DelimSafeWith at hs
   simp only [Bool.and_eq_true, List.all_eq_true, bne_iff_ne, ne_eq] at hs
   obtain ⟨hna0, hs7⟩ := hs
@@ -206,9 +207,19 @@ theorem groupWith_delims_childwise (hu : DelimU u) {fuel : Nat} {st : List Tok} 
   have hna7 : NoAssign m7 :=
     noAssign_of_leafRel (runPasses_leaves u fuel .Statement _ _ _ h7) hna
   rw [← tailSteps_names] at htail
-  exact delimShapeL_of_listInv ks'
-    (runPasses_chain tailSteps .w .t tailSteps_linked (tailSteps_ok hu) m7 ks' htail hna7
-      (listInv_of_delimSafe hu m7 hs7))
+  exact runPasses_chain tailSteps .w .t tailSteps_linked (tailSteps_ok hu) m7 ks' htail hna7
+    (listInv_of_delimSafe hu m7 hs7 (take7_nwL h7))
+
+/-- **the child-level delimiter theorem**, for any normaliser that separates the block keywords (`DelimU`) -/
+theorem groupWith_delims_childwise (hu : DelimU u) {fuel : Nat} {st : List Tok} {ks' : List Node}
+    (hs : DelimSafeWith u fuel st = true) (h : groupWith u fuel (flatStatement st) = .ok ks') :
+    delimShapeL u ks' = true :=
+  delimShapeL_of_listInv ks' (groupWith_listInv hu hs h)
+
+/-- … and no group of the grouped tree consists of whitespace only -/
+theorem groupWith_nw (hu : DelimU u) {fuel : Nat} {st : List Tok} {ks' : List Node}
+    (hs : DelimSafeWith u fuel st = true) (h : groupWith u fuel (flatStatement st) = .ok ks') : nwL ks' = true :=
+  nwL_of_listInv ks' (groupWith_listInv hu hs h)
 
 end DC
 end Sql
